@@ -659,6 +659,14 @@ def _derived_from(m: Func, e: ast.AST, p: str, depth: int = 0) -> bool:
                     if nm in {x.id for x in ast.walk(g.target) if isinstance(x, ast.Name)} \
                             and p in {x.id for x in ast.walk(g.iter) if isinstance(x, ast.Name)}:
                         return True
+            if isinstance(n, ast.For) and nm in {x.id for x in ast.walk(n.target) if isinstance(x, ast.Name)}:
+                # a loop variable derives from what the loop iterates over:  for chunk, m in zip(key_chunks, mask_chunks)
+                inames = {x.id for x in ast.walk(n.iter) if isinstance(x, ast.Name)}
+                if p in inames:
+                    return True
+                for vn in inames:
+                    if vn not in (nm, "self", "zip", "enumerate", "range", "len") and _derived_from(m, ast.Name(id=vn, ctx=ast.Load()), p, depth + 1):
+                        return True
             if isinstance(n, (ast.Assign, ast.AugAssign)):
                 tg = n.targets if isinstance(n, ast.Assign) else [n.target]
                 if any(isinstance(x, ast.Name) and x.id == nm and isinstance(x.ctx, ast.Store)
